@@ -82,8 +82,8 @@ TEXT = {
         "technique": "Lean 4 proof over a translator-extracted impl table (table agreement by kernel evaluation, lifted by induction) + compile-and-run correspondence over a generated derive corpus; round trip by Lean oracle on the implementation's text",
     },
     "C13": {
-        "level": "Proof of the completeness direction for every layout + exhaustive-style correspondence. Machine-checked (unbounded in names, nesting depth, numbers of members / fields / variants / comments, and layout): every text of the grammar - given as an inductive relation between descriptions and texts with gaps of space/tab/CR/LF wherever tokens meet inside parentheses, around `:` `,` `->`, after keywords and between members, comment lines with arbitrary blanks in front of the interface, members, fields, parameters and custom-enum variants, members of the three kinds in any interleaving, optional gaps around the text - parses to exactly the description it denotes (C13_layout; C13_complete for the canonical text); the three name lexers are exact resp. complete for the grammar's regular expressions with longest match; parsing is total with two outcomes (no panic path in the model; the real parser runs under catch_unwind). PARTIAL: the soundness direction (whatever is accepted is grammatical and nothing of it is ignored) beyond the lexers is decided per explored text by an independent Lean oracle on the implementation's verdicts, on ~65k (quick) / ~1.5M (thorough) legal, truncated, mutated and random texts on which the function-by-function parser port and the real parser must also agree.",
-        "design_ref": 'DESIGN.md §5 C13, §11.7', "note": "Trusted: Lean kernel; the port of winnow's combinators and str::trim (tied to the code by the correspondence run); the generator's construction of expected trees; the tokenizer oracle. Not proved: rejection of ungrammatical texts in general (soundness), layout comments in slots the description does not have, form feed / Unicode white space.",
+        "level": "Proof of the completeness direction for every layout + exhaustive-style correspondence. Machine-checked (unbounded in names, nesting depth, numbers of members / fields / variants / comments, and layout): every text of the grammar - given as an inductive relation between descriptions and texts with gaps of space/tab/CR/LF wherever tokens meet inside parentheses, around `:` `,` `->`, after keywords and between members, comment lines with arbitrary blanks in front of the interface, members, fields, parameters and custom-enum variants, members of the three kinds in any interleaving, optional gaps around the text - parses to exactly the description it denotes (C13_layout; C13_complete for the canonical text); the three name lexers are exact resp. complete for the grammar's regular expressions with longest match; parsing is total with two outcomes (no panic path in the model; the real parser runs under catch_unwind). Soundness is machine-checked too (every input text): whatever is accepted yields a description of grammatical names and parser-shaped comments (C13_sound_tree), and the accepted text is, after trimming, a text of the inductive grammar IfaceS denoting exactly that description - every byte a token of it, an attached comment or layout, nothing ignored (C13_sound_text; side condition: no variant-less inline enum in the result). The keywords, primitive names and punctuation the models use are extracted from the source on every run (C13_literals). Not proved: equality of the completeness grammar and the soundness grammar. The correspondence run (function-by-function parser port vs real parser, plus an independent oracle) covers ~65k (quick) / ~6M (thorough) legal, truncated, mutated, deeply nested and random texts.",
+        "design_ref": 'DESIGN.md §5 C13, §11.7', "note": "Trusted: Lean kernel; the port of winnow's combinators and str::trim (tied to the code by the correspondence run); the generator's construction of expected trees; the tokenizer oracle. Not proved: that the two grammar relations coincide (IfaceS additionally admits layout comments in gaps, form feed after keywords, members without white space between them); the fuel argument that an inline enum always has a variant.",
         "technique": 'Lean 4 proof (inductive grammar relation; induction on parser fuel with a type-size measure; lexer exactness by induction; mutual structural recursion on derivations) on a function-by-function port of the parser; model-vs-implementation correspondence with an independent oracle',
     },
     "C14": {
